@@ -221,6 +221,9 @@ def run(F, rep):
         rep.ob("C01-EMPTY", "reader returns the cached reference for in-group id 0", ok0, site="%s:%d" % (gs.file, gs.line_lo), key="C01-EMPTY | reader | id 0")
         rep.ob("C01-EMPTY", "reader decodes an empty delta as a copy of the reference", okE, key="C01-EMPTY | reader | empty delta")
 
+    # ------------------------------------------------------------ PAIR: parallel per-pack vectors move together
+    pair_rule(F, rep, live)
+
     # ------------------------------------------------------------ ID / ALPHA (shared rules)
     from rules import c02, c09
     sub = Report(rep.pid, rep.tier)
@@ -229,3 +232,49 @@ def run(F, rep):
         if o["rule"] in ("C02-IDMAP", "C02-CARD", "C02-SEP", "C02-PLACEHOLDER"):
             rep.ob("C01-ID", o["instance"], o["ok"], detail=o["detail"], site=o["site"], key=o["key"].replace("C02-", "C01-ID/"))
     c09.alpha_rules(F, rep, "C01")
+
+
+GROW = re.compile(r"Vec::<T, A>::(push|insert|extend\w*|append)$")
+RESET = re.compile(r"Vec::<T, A>::(clear|truncate|drain)$|core::mem::(take|replace|swap)")
+
+
+def pair_rule(F, rep, live):
+    """pending_deltas (the deltas waiting for the current pack) and pending_delta_ids (their in-group ids) are
+    parallel vectors: the per-pack de-duplication looks an id up at the index of the matching delta.  Every body
+    that grows or resets one of them must grow / reset the other on the same paths."""
+    A_, B_ = "pending_deltas", "pending_delta_ids"
+    nfun = 0
+    for k in sorted(live):
+        f = F.funcs[k]
+        if f.crate != "ragc_core":
+            continue
+        ex = None
+        ev = {(A_, "grow"): [], (A_, "reset"): [], (B_, "grow"): [], (B_, "reset"): []}
+        for bi, t in f.calls():
+            if t.get("indirect") or t["sp"].get("exp"):
+                continue
+            kind = "grow" if GROW.search(t["callee"]) else ("reset" if RESET.search(t["callee"]) else None)
+            if kind is None or not t["args"]:
+                continue
+            ex = ex or Exprs(f)
+            recv = strip_tags(ex.operand(t["args"][0]))
+            for name in (A_, B_):
+                if isinstance(recv, tuple) and recv[0] == "field" and recv[2] == name:
+                    ev[(name, kind)].append((bi, t))
+        if not any(ev.values()):
+            continue
+        nfun += 1
+        g = cfg_of(f)
+        for kind in ("grow", "reset"):
+            xs, ys = ev[(A_, kind)], ev[(B_, kind)]
+            ok = len(xs) == len(ys)
+            why = "%d %s site(s) on %s, %d on %s" % (len(xs), kind, A_, len(ys), B_)
+            if ok:
+                # each site on one vector has a partner on the other that always runs with it
+                for (xb, xt) in xs:
+                    if not any(g.dominates(xb, yb) and g.postdominates(yb, xb) or g.dominates(yb, xb) and g.postdominates(xb, yb) or xb == yb for yb, _ in ys):
+                        ok = False
+                        why += "; the %s at %s has no partner on the same paths" % (kind, site_of(f, xt))
+            rep.ob("C01-PAIR", "%s: %s and %s are %s together" % (k.split("::", 1)[-1], A_, B_, "extended" if kind == "grow" else "reset"), ok, detail=why,
+                   site=site_of(f, (xs or ys)[0][1]) if (xs or ys) else "%s:%d" % (f.file, f.line_lo), key="C01-PAIR | %s | %s" % (k, kind))
+    rep.floor("C01-PAIR", nfun, 2, "bodies that maintain the per-pack delta / id vectors")
